@@ -22,6 +22,7 @@ type Mutex struct {
 	real  sync.Mutex
 	owner *Task
 	name  string
+	nwait int // tasks blocked on (or woken for and not yet holding) this mutex
 }
 
 //go:norace
@@ -47,14 +48,27 @@ func (m *Mutex) Lock() {
 		m.real.Lock()
 		return
 	}
+	// Handoff: others want this lock right now (a scheduling decision at which a
+	// strategy should not just keep running the current task: lock dropped and
+	// taken again by the same goroutine, with waiters in between)
+	t.Handoff = m.nwait > 0
 	k.YieldT(t, "Mutex.Lock")
+	t.Handoff = false
+	counted := false
 	for m.owner != nil {
 		if m.owner == t {
 			k.FailNow(t, "relock", "task locks a sync.Mutex it already holds (self-deadlock)")
 		}
+		if !counted {
+			counted = true
+			m.nwait++
+		}
 		t.waitLock, t.waitWrite = m, true
 		t.setState(BlockedLock)
 		k.park(t)
+	}
+	if counted {
+		m.nwait--
 	}
 	t.waitLock = nil
 	m.owner = t
@@ -102,7 +116,9 @@ func (m *Mutex) Unlock() {
 	m.real.Unlock()
 	k.wakeLockWaiters(m)
 	if !k.aborting {
+		t.Handoff = m.nwait > 0
 		k.YieldT(t, "Mutex.Unlock")
+		t.Handoff = false
 	}
 }
 
@@ -133,6 +149,7 @@ type RWMutex struct {
 	writer   *Task
 	readers  []*Task
 	wwaiting int
+	rwaiting int // readers blocked on (or woken for and not yet holding) it
 	name     string
 }
 
@@ -169,7 +186,9 @@ func (m *RWMutex) Lock() {
 		m.real.Lock()
 		return
 	}
+	t.Handoff = m.wwaiting+m.rwaiting > 0
 	k.YieldT(t, "RWMutex.Lock")
+	t.Handoff = false
 	if m.writer == t {
 		k.FailNow(t, "relock", "task write-locks a sync.RWMutex it already holds (self-deadlock)")
 	}
@@ -207,7 +226,9 @@ func (m *RWMutex) Unlock() {
 	m.real.Unlock()
 	k.wakeLockWaiters(m)
 	if !k.aborting {
+		t.Handoff = m.wwaiting+m.rwaiting > 0
 		k.YieldT(t, "RWMutex.Unlock")
+		t.Handoff = false
 	}
 }
 
@@ -226,11 +247,18 @@ func (m *RWMutex) RLock() {
 		m.real.RLock()
 		return
 	}
+	t.Handoff = m.wwaiting+m.rwaiting > 0
 	k.YieldT(t, "RWMutex.RLock")
+	t.Handoff = false
 	if m.writer == t {
 		k.FailNow(t, "relock", "task read-locks a sync.RWMutex it holds for writing (self-deadlock)")
 	}
+	rcounted := false
 	for m.writer != nil || m.wwaiting > 0 {
+		if !rcounted {
+			rcounted = true
+			m.rwaiting++
+		}
 		if m.wwaiting > 0 && m.writer == nil && m.holdsRead(t) {
 			// Go blocks a new reader behind a waiting writer; the writer waits
 			// for this task's earlier read lock: real deadlock.
@@ -239,6 +267,9 @@ func (m *RWMutex) RLock() {
 		t.waitLock, t.waitWrite = m, false
 		t.setState(BlockedLock)
 		k.park(t)
+	}
+	if rcounted {
+		m.rwaiting--
 	}
 	t.waitLock = nil
 	m.readers = Push(m.readers, t)
@@ -278,7 +309,9 @@ func (m *RWMutex) RUnlock() {
 		k.wakeLockWaiters(m)
 	}
 	if !k.aborting {
+		t.Handoff = len(m.readers) == 0 && m.wwaiting+m.rwaiting > 0
 		k.YieldT(t, "RWMutex.RUnlock")
+		t.Handoff = false
 	}
 }
 
